@@ -92,6 +92,40 @@ class BoundMethod:
     self_obj: Any
 
 
+class ItemGetter:
+    """operator.itemgetter(i) / operator.attrgetter(name) with one key."""
+
+    def __init__(self, kind: str, key):
+        self.kind = kind
+        self.key = key
+
+
+class CountIter:
+    """itertools.count(start, step): unbounded, only consumable through zip()."""
+
+    def __init__(self, start, step):
+        self.start = start
+        self.step = step
+
+
+class Sentinel:
+    """Result of `object()`: only its identity is observable."""
+
+    def __repr__(self):
+        return f"<object {id(self):x}>"
+
+
+@dataclass(eq=False)
+class LocalDef:
+    """A function defined inside a function: the enclosing environment is captured by
+    reference (late binding, as in Python); defaults are evaluated at definition time."""
+
+    node: ast.FunctionDef
+    env: dict
+    interp: "Interp"
+    defaults: dict
+
+
 class RaiseSignal(Exception):
     def __init__(self, exc_name: str, node: ast.AST, payload=None):
         self.exc_name = exc_name
@@ -200,7 +234,7 @@ class Interp:
     def truth(self, v, node) -> bool:
         if isinstance(v, Unknown):
             return self.decide(node, v)
-        if isinstance(v, (Sym, Obj, Closure, BoundMethod, Func, Class)):
+        if isinstance(v, (Sym, Obj, Closure, BoundMethod, Func, Class, LocalDef, Sentinel, ItemGetter)):
             return True
         if isinstance(v, CONCRETE):
             return bool(v)
@@ -314,6 +348,13 @@ class Interp:
 
                 b, lo, hi = table[t]
                 return types.SimpleNamespace(bits=b, min=lo, max=hi, dtype=args[0])
+        if name == "itertools.count" and len(args) <= 2 and not (set(kwargs) - {"start", "step"}):
+            start = kwargs.get("start", args[0] if args else 0)
+            step = kwargs.get("step", args[1] if len(args) > 1 else 1)
+            if isinstance(step, int) and not isinstance(step, bool):
+                return CountIter(start, step)
+        if name in ("operator.itemgetter", "operator.attrgetter") and len(args) == 1 and not kwargs and isinstance(args[0], (int, str)):
+            return ItemGetter(name.rsplit(".", 1)[1], args[0])
         # pure scalar mathematics on concrete representatives
         mod, _, fn = name.rpartition(".")
         if mod in ("math", "numpy") and fn in _MATH_FUNCS and args and not kwargs and all(isinstance(a, (int, float, Fraction)) and not isinstance(a, bool) for a in args):
@@ -453,7 +494,20 @@ class Interp:
             finally:
                 pass
             self.exec_block(st.finalbody)
-        elif isinstance(st, (ast.FunctionDef, ast.ClassDef)):
+        elif isinstance(st, ast.FunctionDef):
+            if st.decorator_list or any(isinstance(n, (ast.Nonlocal, ast.Global, ast.Yield, ast.YieldFrom)) for n in ast.walk(st)):
+                raise Undecided("nested definition (decorated / nonlocal / generator)")
+            a = st.args
+            if a.vararg or a.kwarg or a.posonlyargs:
+                raise Undecided("nested definition with *args/**kwargs")
+            defaults = {}
+            for arg, d in zip(a.args[len(a.args) - len(a.defaults) :], a.defaults):
+                defaults[arg.arg] = self.eval(d)
+            for arg, d in zip(a.kwonlyargs, a.kw_defaults):
+                if d is not None:
+                    defaults[arg.arg] = self.eval(d)
+            self.env[st.name] = LocalDef(st, self.env, self, defaults)
+        elif isinstance(st, ast.ClassDef):
             raise Undecided("nested definition")
         elif isinstance(st, ast.Delete):
             for t in st.targets:
@@ -863,6 +917,10 @@ class Interp:
                 # identity/equality on abstract values: only symbols and concrete values are comparable
                 if not all(is_concrete(x) for x in list(fv.obj) + a):
                     raise Undecided("search in a list of abstract values")
+            if fv.name in ("update", "extend", "union", "intersection", "difference", "join") and any(isinstance(x, Unknown) for x in a):
+                raise Undecided(f"container method {fv.name} with an unmodelled argument")
+            if isinstance(fv.obj, dict) and fv.name == "update" and len(a) == 1 and isinstance(a[0], list):
+                a = [[(_hashable(k), v) for k, v in a[0]]]
             try:
                 return getattr(fv.obj, fv.name)(*a)
             except (ValueError, KeyError, IndexError) as e:
@@ -886,6 +944,17 @@ class Interp:
             return self.construct(fv, args, kwargs, node)
         if isinstance(fv, Closure):
             return self.call_closure(fv, args, node)
+        if isinstance(fv, LocalDef):
+            return self.call_localdef(fv, args, kwargs, node)
+        if isinstance(fv, ItemGetter) and len(args) == 1 and not kwargs:
+            if fv.kind == "attrgetter":
+                return self.get_attr(args[0], fv.key, node)
+            if isinstance(args[0], (list, tuple, dict)):
+                try:
+                    return args[0][fv.key]
+                except (IndexError, KeyError):
+                    raise RaiseSignal("IndexError", node)
+            return self.subscript_hook(args[0], fv.key, node)
         if isinstance(fv, Obj):
             m = fv.cls.lookup("__call__")
             if m is not None:
@@ -911,6 +980,37 @@ class Interp:
         sub.env = dict(c.env)
         sub.env.update(dict(zip(names, args)))
         return sub.eval(c.node.body)
+
+    def call_localdef(self, ld: LocalDef, args, kwargs, node):
+        a = ld.node.args
+        names = [x.arg for x in a.args]
+        kwonly = [x.arg for x in a.kwonlyargs]
+        if len(args) > len(names):
+            raise RaiseSignal("TypeError", node)
+        bound = dict(zip(names, args))
+        for k, v in kwargs.items():
+            if k not in names + kwonly or k in bound:
+                raise RaiseSignal("TypeError", node)
+            bound[k] = v
+        for n in names + kwonly:
+            if n not in bound:
+                if n in ld.defaults:
+                    bound[n] = ld.defaults[n]
+                else:
+                    raise RaiseSignal("TypeError", node)
+        if self.depth >= self.max_depth:
+            raise Undecided("call depth")
+        sub = self.__class__.__new__(self.__class__)
+        sub.__dict__.update(ld.interp.__dict__)
+        sub.env = dict(ld.env)  # snapshot at call time == late binding without nonlocal writes
+        sub.env.update(bound)
+        sub.depth = self.depth + 1
+        sub.root = self.root
+        try:
+            sub.exec_block(ld.node.body)
+        except _Return as r:
+            return r.value
+        return None
 
     def construct(self, cls: Class, args, kwargs, node):
         init = cls.lookup("__init__")
@@ -1045,6 +1145,19 @@ class Interp:
                 return [(i + st, x) for i, x in enumerate(args[0])]
             if name == "zip" and all(isinstance(a, (list, tuple)) for a in args):
                 return list(zip(*args))
+            if name == "zip" and args and all(isinstance(a, (list, tuple, CountIter)) for a in args) and any(isinstance(a, (list, tuple)) for a in args):
+                n = min(len(a) for a in args if isinstance(a, (list, tuple)))
+                cols = []
+                for a in args:
+                    if isinstance(a, CountIter):
+                        col, cur = [], a.start
+                        for i in range(n):
+                            col.append(cur)
+                            cur = self.binop(ast.Add(), cur, a.step, node)
+                        cols.append(col)
+                    else:
+                        cols.append(list(a)[:n])
+                return list(zip(*cols))
             if name in ("int", "float", "bool", "abs", "str", "round") and conc and args:
                 a = args[0]
                 if name == "int":
@@ -1074,6 +1187,8 @@ class Interp:
                 if isinstance(args[1], str):
                     args[0].attrs[args[1]] = args[2]
                 return None
+            if name == "object" and not args and not kwargs:
+                return Sentinel()
             if name == "getattr" and len(args) >= 2 and isinstance(args[0], Obj) and isinstance(args[1], str):
                 if args[1] in args[0].attrs or args[0].cls.lookup(args[1]) is not None:
                     return self.get_attr(args[0], args[1], node)
